@@ -250,7 +250,8 @@ def run_actions(actions, phase, ctx):
             if st in ('fd1', 'fd2'):
                 try:
                     os.write(1 if st == 'fd1' else 2,
-                             text.encode('utf-8', 'replace'))
+                             text.encode('utf-8', 'replace') +
+                             bytes.fromhex(a.get('tail_hex', '')))
                 except OSError:
                     pass
             elif st.endswith('.buffer'):
@@ -293,6 +294,14 @@ def run_actions(actions, phase, ctx):
                  if ORIG_STDOUT is not None else None,
                  err_is_orig=(sys.stderr is ORIG_STDERR)
                  if ORIG_STDERR is not None else None)
+        elif do == 'swap_stream':
+            # a test that installs its own StringIO as sys.stdout / sys.stderr
+            # and forgets to put the old stream back
+            import io
+            if a.get('stream') == 'stderr':
+                sys.stderr = io.StringIO()
+            else:
+                sys.stdout = io.StringIO()
         elif do == 'atexit_write':
             # something that writes to the real stderr when the interpreter
             # shuts down (atexit hook, logging.shutdown, "Exception ignored
